@@ -615,24 +615,20 @@ def event_inputs_to_events(
             )
         event = Event(eventInput.eventType)
         for eventSetList in eventInput.outgoingEventSets:
-            event.event_sets.add(
-                EventSet(
-                    [
-                        eventSet.eventType
-                        for eventSet in eventSetList
-                        for _ in range(eventSet.count)
-                    ]
-                )
+            event.update_event_sets(
+                [
+                    eventSet.eventType
+                    for eventSet in eventSetList
+                    for _ in range(eventSet.count)
+                ]
             )
         for eventSetList in eventInput.incomingEventSets:
-            event.in_event_sets.add(
-                EventSet(
-                    [
-                        eventSet.eventType
-                        for eventSet in eventSetList
-                        for _ in range(eventSet.count)
-                    ]
-                )
+            event.update_in_event_sets(
+                [
+                    eventSet.eventType
+                    for eventSet in eventSetList
+                    for _ in range(eventSet.count)
+                ]
             )
         events[eventInput.eventType] = event
     return events
